@@ -274,6 +274,12 @@ func (e *Engine) intrinsic(name string) stubFn {
 			}
 			return nil
 		}
+	case "vrf_elapse":
+		// vrf_elapse(ns int64): ns nanoseconds pass; timers expire at their instants
+		return func(m *Machine, c *frame, fn *ssa.Function, a []Value) Value {
+			m.elapse(m.term(a[0]))
+			return nil
+		}
 	case "vrf_blocked_goroutines":
 		return func(m *Machine, c *frame, fn *ssa.Function, a []Value) Value {
 			n := 0
